@@ -123,6 +123,21 @@ theorem exec_head {d d' : Dev} {r : Req} {bs : Bytes} (h : exec d r = (d', some 
     rw [encodeReply_head he, execMultiple_svc hr]
     rfl
 
+/-- the Connection Manager always answers its own services, with the request's service code with bit 7 set -/
+theorem execCm_head (s : Srv) (r : CmReq) (raw : Bytes) :
+    (execCm s r).2.head? = some (Cip.service (.cm r raw) ||| 128) := by
+  cases r with
+  | fwdOpen large prio ticks otId toId serial vendor oserial mult otRpi otNcp toRpi toNcp tct cpath =>
+    have hs : fwdOpenRpy large = Cip.service (.cm (.fwdOpen large prio ticks otId toId serial vendor oserial mult otRpi
+        otNcp toRpi toNcp tct cpath) raw) ||| 128 := by
+      cases large <;> simp [fwdOpenRpy, Cip.service, Generated.svcFwdOpen, Generated.svcFwdOpenLarge]
+    rw [← hs]
+    simp only [execCm]
+    repeat' split
+    all_goals simp
+  | fwdClose prio ticks serial vendor oserial cpath =>
+    simp [execCm, Cip.service, Generated.svcFwdClose]
+
 /-! ### framing -/
 
 theorem sendFraming_eq (iface timeout : Nat) (bs : Bytes) :
@@ -144,25 +159,57 @@ theorem failStatus_ne_zero (st : Nat) : failStatus st ≠ 0 := by
   · decide
   · assumption
 
+theorem sizeFailStatus_ne_zero : sizeFailStatus ≠ 0 := by decide
+
+/-- frames that are, by design, not answered: an Unregister Session within the size limit -/
+def Frame.silent (cfg : Cfg) (f : Frame) : Bool := f.isUnregister && fits cfg f
+
+theorem processBody_unparsable (fixed : Bool) (cfg : Cfg) (s : Srv) (f : Frame) (h : f.parsable = false) :
+    processBody fixed cfg s f = (s, .abort) := by
+  unfold processBody
+  cases hb : f.body <;> simp_all [Frame.parsable]
+
 /-- a frame the command parser rejects is not answered -/
 theorem process_unparsable (fixed : Bool) (cfg : Cfg) (s : Srv) (f : Frame) (h : f.parsable = false) :
     processWith fixed cfg s f = (s, .abort) := by
-  unfold processWith
-  cases hb : f.body <;> simp_all [Frame.parsable]
+  simp [processWith, h, processBody_unparsable fixed cfg s f h]
 
-theorem process_unregister (fixed : Bool) (cfg : Cfg) (s : Srv) (f : Frame) (h : f.isUnregister = true) :
-    processWith fixed cfg s f = ({ s with session := none }, .close) := by
-  unfold processWith
+theorem processBody_unregister (fixed : Bool) (cfg : Cfg) (s : Srv) (f : Frame) (h : f.isUnregister = true) :
+    processBody fixed cfg s f = ({ s with session := none }, .close) := by
+  unfold processBody
   cases hb : f.body <;> simp_all [Frame.isUnregister]
 
-/-- every other frame the parser accepts is answered -/
-theorem process_replies (fixed : Bool) (cfg : Cfg) (s : Srv) (f : Frame) (hp : f.parsable = true)
-    (hu : f.isUnregister = false) : ∃ r, (processWith fixed cfg s f).2 = .reply r := by
-  unfold processWith
+theorem process_unregister (fixed : Bool) (cfg : Cfg) (s : Srv) (f : Frame) (h : f.silent cfg = true) :
+    processWith fixed cfg s f = ({ s with session := none }, .close) := by
+  simp only [Frame.silent, Bool.and_eq_true] at h
+  simp [processWith, h.2, processBody_unregister fixed cfg s f h.1]
+
+theorem processBody_replies (fixed : Bool) (cfg : Cfg) (s : Srv) (f : Frame) (hp : f.parsable = true)
+    (hu : f.isUnregister = false) : ∃ r, (processBody fixed cfg s f).2 = .reply r := by
+  unfold processBody
   cases hb : f.body <;> simp_all [Frame.parsable, Frame.isUnregister, refuse]
   · split <;> exact ⟨_, rfl⟩
   · repeat' split
     all_goals exact ⟨_, rfl⟩
+
+/-- every other frame the parser accepts is answered -/
+theorem process_replies (fixed : Bool) (cfg : Cfg) (s : Srv) (f : Frame) (hp : f.parsable = true)
+    (hu : f.silent cfg = false) : ∃ r, (processWith fixed cfg s f).2 = .reply r := by
+  unfold processWith
+  cases hf : fits cfg f with
+  | false => exact ⟨echo f sizeFailStatus [], by simp [hp]⟩
+  | true =>
+    have : f.isUnregister = false := by simpa [Frame.silent, hf] using hu
+    simpa [hp] using processBody_replies fixed cfg s f hp this
+
+theorem processWith_fits (fixed : Bool) (cfg : Cfg) (s : Srv) (f : Frame) (hf : fits cfg f = true) :
+    processWith fixed cfg s f = processBody fixed cfg s f := by
+  simp [processWith, hf]
+
+/-- a payload over the size limit: one header-only frame with a non-zero status -/
+theorem process_oversize (fixed : Bool) (cfg : Cfg) (s : Srv) (f : Frame) (hp : f.parsable = true)
+    (hf : fits cfg f = false) : processWith fixed cfg s f = (s, .reply (echo f sizeFailStatus [])) := by
+  simp [processWith, hp, hf]
 
 /-- what a reply shares with its request -/
 structure Echoes (f : Frame) (r : ReplyFrame) : Prop where
@@ -175,9 +222,9 @@ structure Echoes (f : Frame) (r : ReplyFrame) : Prop where
 theorem echo_echoes (f : Frame) (st : Nat) (pl : Bytes) (h : f.isRegister = false) : Echoes f (echo f st pl) :=
   ⟨rfl, rfl, rfl, fun _ => rfl, fun h' => by simp [h] at h'⟩
 
-theorem process_echoes (fixed : Bool) (cfg : Cfg) (s : Srv) (f : Frame) (r : ReplyFrame)
-    (h : (processWith fixed cfg s f).2 = .reply r) : Echoes f r := by
-  unfold processWith at h
+theorem processBody_echoes (fixed : Bool) (cfg : Cfg) (s : Srv) (f : Frame) (r : ReplyFrame)
+    (h : (processBody fixed cfg s f).2 = .reply r) : Echoes f r := by
+  unfold processBody at h
   cases hb : f.body with
   | register proto opts extra =>
     simp only [hb] at h
@@ -208,6 +255,15 @@ theorem process_echoes (fixed : Bool) (cfg : Cfg) (s : Srv) (f : Frame) (r : Rep
       simp only [refuse, Outcome.reply.injEq] at h
       subst h
       exact echo_echoes _ _ _ hr
+
+theorem process_echoes (fixed : Bool) (cfg : Cfg) (s : Srv) (f : Frame) (r : ReplyFrame)
+    (h : (processWith fixed cfg s f).2 = .reply r) : Echoes f r := by
+  unfold processWith at h
+  split at h
+  · simp only [Outcome.reply.injEq] at h
+    subst h
+    exact ⟨rfl, rfl, rfl, fun _ => rfl, fun _ h0 => absurd h0 sizeFailStatus_ne_zero⟩
+  · exact processBody_echoes fixed cfg s f r h
 
 /-! ### the serve loop -/
 
@@ -262,8 +318,8 @@ theorem Matched.get {α β : Type} {R : α → β → Prop} {as : List α} {bs :
       simp only [List.getElem?_cons_succ] at ha hb
       exact ih k ha hb
 
-/-- the frames that are to be answered: all but Unregister Session -/
-def expected (fs : List Frame) : List Frame := fs.filter fun f => !f.isUnregister
+/-- the frames that are to be answered: all but Unregister Session (within the size limit) -/
+def expected (cfg : Cfg) (fs : List Frame) : List Frame := fs.filter fun f => !f.silent cfg
 
 /-- The loop, for frames the command parser accepts: it consumes a prefix of the input; the replies are, in
 order, one for each frame of that prefix other than Unregister, each echoing its request; it never aborts; it
@@ -271,7 +327,7 @@ leaves input unconsumed only after it has closed the session. -/
 theorem serveWith_answers (fixed : Bool) (cfg : Cfg) (s : Srv) (fs : List Frame)
     (hp : ∀ f ∈ fs, f.parsable = true) :
     (serveWith fixed cfg s fs).consumed ≤ fs.length ∧
-    Matched Echoes (expected (fs.take (serveWith fixed cfg s fs).consumed)) (serveWith fixed cfg s fs).replies ∧
+    Matched Echoes (expected cfg (fs.take (serveWith fixed cfg s fs).consumed)) (serveWith fixed cfg s fs).replies ∧
     ((serveWith fixed cfg s fs).end = .open → (serveWith fixed cfg s fs).consumed = fs.length) ∧
     (serveWith fixed cfg s fs).end ≠ .aborted := by
   induction fs generalizing s with
@@ -279,7 +335,7 @@ theorem serveWith_answers (fixed : Bool) (cfg : Cfg) (s : Srv) (fs : List Frame)
   | cons f fs ih =>
     have hpf : f.parsable = true := hp f (by simp)
     have hpfs : ∀ g ∈ fs, g.parsable = true := fun g hg => hp g (by simp [hg])
-    cases hu : f.isUnregister with
+    cases hu : f.silent cfg with
     | true =>
       simp only [serveWith, process_unregister fixed cfg s f hu]
       refine ⟨by simp, ?_, by simp, by simp⟩
@@ -334,7 +390,7 @@ theorem serveWith_statuses (fixed : Bool) (cfg : Cfg) (s : Srv) (fs : List Frame
 
 /-- an Unregister Session is the last frame consumed -/
 theorem serveWith_unregister_last (fixed : Bool) (cfg : Cfg) (s : Srv) (fs : List Frame) (k : Nat) (f : Frame)
-    (hk : k + 1 < (serveWith fixed cfg s fs).consumed) (hf : fs[k]? = some f) : f.isUnregister = false := by
+    (hk : k + 1 < (serveWith fixed cfg s fs).consumed) (hf : fs[k]? = some f) : f.silent cfg = false := by
   induction fs generalizing s k with
   | nil => simp [serveWith] at hk
   | cons g gs ih =>
@@ -347,7 +403,7 @@ theorem serveWith_unregister_last (fixed : Bool) (cfg : Cfg) (s : Srv) (fs : Lis
         | zero =>
           simp only [List.getElem?_cons_zero, Option.some.injEq] at hf
           subst hf
-          cases hu : g.isUnregister with
+          cases hu : g.silent cfg with
           | false => rfl
           | true => rw [process_unregister fixed cfg s g hu] at hpr; cases hpr
         | succ k =>
